@@ -21,6 +21,7 @@ pub mod c16;
 pub mod c17;
 pub mod c18;
 pub mod c19;
+pub mod c20;
 
 pub struct Prop {
     pub id: &'static str,
@@ -49,6 +50,7 @@ pub fn all() -> Vec<Prop> {
         Prop { id: "C17", level: "exploration", run: c17::run },
         Prop { id: "C18", level: "exploration", run: c18::run },
         Prop { id: "C19", level: "exploration", run: c19::run },
+        Prop { id: "C20", level: "exploration", run: c20::run },
     ]
 }
 
